@@ -108,7 +108,7 @@ fn c09_kernel_second() {
 }
 
 // ------------------------------------------------------------------------------------------------
-// @verif prop=C08 tier=quick timeout=120 bounds=all-u64
+// @verif prop=C08,C01 tier=quick timeout=120 bounds=all-u64
 // For all u64 max/cur: rotation_necessary() of a Size roll state == (cur > max); AgeOrSize with the age part inactive (same period) decides identically.
 #[kani::proof]
 #[kani::stub(verif_support::reexp::catch_unwind, verif_support::stub_cu)]
@@ -170,7 +170,12 @@ fn c08_size_accounting() {
     kani::cover!(cur > max_size && add > 0, "write into an over-limit file (after failed rotation)");
 }
 // model of get_creation_timestamp: birth instant of the file = next clock value
-fn stub_creation_ts(_p: &Path) -> DateTime<Local> {
+fn stub_creation_ts(p: &Path) -> DateTime<Local> {
+    use std::os::unix::ffi::OsStrExt;
+    // which file's birth time is asked for: first byte of the path ('c' = the path mounted before
+    // the rotation, 'n' = the newly opened one in the step harnesses)
+    let b = p.as_os_str().as_bytes();
+    vs::cell_set(10, if b.is_empty() { 0 } else { b[0] as u64 });
     stub_now()
 }
 
@@ -786,10 +791,10 @@ macro_rules! init_instance {
         }
     };
 }
-// @verif prop=C06,C01 tier=quick timeout=900 bounds=Naming::NumbersDirect,append-symbolic,highest-existing-index<1000-or-none
+// @verif prop=C06,C01,C11 tier=quick timeout=900 bounds=Naming::NumbersDirect,append-symbolic,highest-existing-index<1000-or-none
 // Start of a run with NumbersDirect: with append the highest existing numbered file is continued, without append a new number strictly above every existing one is opened (0 only in an empty directory) - an existing file is never re-opened for truncation.
 init_instance!(c06_init_numbers_direct, true);
-// @verif prop=C06,C01 tier=quick timeout=900 bounds=Naming::Numbers,append-symbolic
+// @verif prop=C06,C01,C11 tier=quick timeout=900 bounds=Naming::Numbers,append-symbolic
 // Start of a run with Numbers: the index is asked from index_for_rcurrent with "unknown" and rotate = !append (without append the earlier current file is rotated away before rCURRENT is opened, with append it is continued), and rCURRENT is what gets opened.
 init_instance!(c06_init_numbers, false);
 
@@ -1028,6 +1033,10 @@ fn c09_rotate_by_age() {
     let rotate = s1 != s0 || (with_size && current_size > max_size);
     assert!(ok);
     assert!(vs::ev_len() == if rotate { 4 } else { 0 });
+    if rotate {
+        // the start time that is remembered is the birth time of the *newly opened* file
+        assert!(vs::cell_get(10) == b'n' as u64);
+    }
     if let Inner::Active(Some(rs), _, _) = &state.inner {
         use chrono::Timelike;
         match &rs.roll_state {
@@ -1093,3 +1102,60 @@ fn c18_reopen_switches_writer() {
     kani::cover!(l1 == 6 && l2 == 1, "lengths 6 and 1");
     std::mem::forget(state);
 }
+
+// ------------------------------------------------------------------------------------------------
+// State::shutdown must flush the mounted writer - with and without rotation configured. (That the
+// real BufWriter's flush() then delivers every buffered byte is decided by c04_buffered_flush; the
+// two compose to "shutdown leaves nothing behind in the buffered modes". shutdown() directly over a
+// BufWriter does not terminate: it drops the Result of BufWriter::flush.)
+fn shutdown_flush_case(with_rotation: bool) {
+    vs::link_all();
+    vs::cell_set(0, 0);
+    let cfg = mk_config(FileSpec::default().directory("d").basename("b").suffix("l").suppress_timestamp(), false, WriteMode::Direct);
+    let rot = if with_rotation {
+        Some(RotationState {
+            naming_state: NamingState::NumbersRCurrent(0),
+            roll_state: RollState::Size { max_size: 10, current_size: 0 },
+            cleanup: Cleanup::Never,
+            o_cleanup_thread_handle: None,
+        })
+    } else {
+        None
+    };
+    let mut state = State { config: cfg, inner: Inner::Active(rot, Box::new(RecW { id: 3 }), PathBuf::from("c")) };
+    let len: usize = kani::any();
+    kani::assume(len <= 8);
+    let buf = [b'x'; 8];
+    std::mem::forget(state.write_buffer(&buf[..len]));
+    let n0 = vs::ev_len();
+    state.shutdown();
+    // exactly one flush of the mounted writer, after everything that was written
+    assert!(vs::ev_len() == n0 + 1 && vs::ev_get(n0) == (0x200 | 3));
+    // flush() itself reaches the writer as well
+    let f = state.flush();
+    std::mem::forget(f);
+    assert!(vs::ev_len() == n0 + 2 && vs::ev_get(n0 + 1) == (0x200 | 3));
+    kani::cover!(len > 0, "a record was written before");
+    std::mem::forget(state);
+}
+macro_rules! shutdown_instance {
+    ($name:ident, $rot:expr) => {
+        #[kani::proof]
+        #[kani::unwind(10)]
+        #[kani::stub(verif_support::reexp::catch_unwind, verif_support::stub_cu)]
+        #[kani::stub(chrono::Local::now, stub_now)]
+        #[kani::stub(State::initialize, cut_initialize)]
+        #[kani::stub(State::mount_next_linewriter_if_necessary, rec_mount_next_quiet)]
+        #[kani::stub(crate::util::eprint_err, stub_eprint_err_ev)]
+        #[kani::stub(list_and_cleanup::CleanupThreadHandle::shutdown, cut_cleanup_thread_shutdown)]
+        fn $name() {
+            shutdown_flush_case($rot);
+        }
+    };
+}
+// @verif prop=C04 tier=quick timeout=600 bounds=Active-state-with-rotation,one-record<=8-bytes
+// State::shutdown() (and flush()) flush the mounted writer exactly once - rotation configured.
+shutdown_instance!(c04_shutdown_flushes_with_rotation, true);
+// @verif prop=C04 tier=quick timeout=600 bounds=Active-state-without-rotation,one-record<=8-bytes
+// ... and also when no rotation is configured (stand-alone / additional file writers are only ever shut down, never flushed first).
+shutdown_instance!(c04_shutdown_flushes_without_rotation, false);
